@@ -211,14 +211,43 @@ func limiterSerial(p *Prog, r *Report, rule string) {
 			}
 		}
 	}
+	// look-up, creation and re-arming of a source's entry form one critical section: every TTL-map call
+	// on the limiter's map is made with the limiter mutex held (the map's own lock makes each call safe,
+	// not the get-or-create sequence)
+	for _, a := range ls.CallSites {
+		cc := CallCommonOf(a.Instr)
+		if cc == nil || cc.StaticCallee() == nil || recvNamed(cc.StaticCallee()) == nil || recvNamed(cc.StaticCallee()).Obj().Name() != "TTLMap" {
+			continue
+		}
+		if !strings.HasPrefix(a.Path, "R.") || a.Fn == nil || recvNamed(a.Fn) != tl {
+			continue
+		}
+		if _, ex := c09ExemptRoots[strings.TrimSuffix(a.Root, "$go")]; ex {
+			continue
+		}
+		n++
+		held := false
+		for _, m := range mus {
+			if a.Locks["R."+m] == 'W' {
+				held = true
+			}
+		}
+		if !held {
+			k := fmt.Sprintf("ratelimit.TokenLimiter: TTLMap.%s in %s [entry %s]", cc.StaticCallee().Name(), FName(a.Fn), a.Root)
+			if _, ok := bad[k]; !ok {
+				a.Path = a.Path + " (TTLMap." + cc.StaticCallee().Name() + ")"
+				bad[k] = a
+			}
+		}
+	}
 	r.Sites += n
 	for k, a := range bad {
-		r.Fail(rule, k, p.InstrPos(a.Instr), "per-source bucket state ("+a.Path+") is accessed without the limiter mutex: consume and rollback of concurrent requests of one source interleave")
+		r.Fail(rule, k, p.InstrPos(a.Instr), "per-source bucket state ("+a.Path+") is accessed without the limiter mutex: look-up, creation, consume and rollback of concurrent requests of one source interleave (two first requests each create a full bucket set and one overwrites the other: consumption is lost)")
 	}
 	if len(bad) == 0 {
 		r.Pass(rule, "ratelimit.TokenLimiter: bucket state only touched under the limiter mutex", "-", fmt.Sprintf("%d accesses on all call paths from exported methods hold the limiter mutex", n))
 	}
-	r.Floor(rule, n, 15, "accesses to bucket state from the limiter")
+	r.Floor(rule, n, 17, "accesses to bucket state from the limiter")
 }
 
 func runC03(p *Prog, r *Report) {
@@ -457,6 +486,31 @@ func c03Limiter(p *Prog, r *Report) {
 	r.Floor("C03.R2", nNew, 1, "bucket set constructions in the consume routine")
 	c03Admission(p, r, tl, fn)
 	c03Capacity(p, r, "C03.R8", tl)
+	c03TTLPositive(p, r, "C03.R10", tl)
+}
+
+// c03TTLPositive: the lifetime handed to TTLMap.Set is provably >= 1 second for every rate set. The map
+// refuses a lifetime <= 0 with an error, which the limiter turns into an error response for every
+// request of a rate whose longest period is below one second (int(period/Second) is 0).
+func c03TTLPositive(p *Prog, r *Report, rule string, tl *types.Named) {
+	n := 0
+	for _, m := range p.Methods(tl) {
+		for _, c := range Calls(m) {
+			call, ok := c.(*ssa.Call)
+			if !ok || !ccIs(call.Common(), pkgColl, "TTLMap.Set") || len(call.Common().Args) < 4 {
+				continue
+			}
+			n++
+			r.Fn(FName(m))
+			lb, known := LowerBound(p, call.Common().Args[3])
+			e := truncate(BuildExpr(p, call.Common().Args[3], nil).String(), 120)
+			r.Paths++
+			r.Check(known && lb >= 1, rule, "ratelimit.(*TokenLimiter)."+m.Name()+": the entry lifetime is at least one second for every rate", p.InstrPos(call),
+				fmt.Sprintf("lower bound of the ttl argument = %d (interval arithmetic over its definition; maxPeriod >= 0 is an inductive invariant of its stores)", lb),
+				"the ttl argument "+e+" is not provably >= 1: for a rate set whose longest period is shorter than a second it is 0, TTLMap.Set refuses it and every request of that rate is answered with an error instead of being limited")
+		}
+	}
+	r.Floor(rule, n, 1, "TTLMap.Set calls of the limiter")
 }
 
 // c03Admission (R7): the limiter fails closed. The wrapped handler is invoked only on the nil edge
